@@ -719,6 +719,16 @@ func Run(tp *tape.Tape, env *engine.Env) *engine.Outcome {
 					"%s (dst=%s atomic=%v) returned nil after %s at %s but output differs: %s", c.wp.name, c.dstKind, c.atomic, in.kind, in.p.key, d)
 			}
 		}
+		if fired > 0 && err != nil {
+			// a failed atomic put leaves no new object behind - also not under its temporary name
+			for _, k := range simfs.SortedKeys(state) {
+				if simfs.IsTemp(k) {
+					s.Violate("failed-put-leaves-nothing", "C15|atomic-failed-put-residue|"+site,
+						"%s (dst=%s atomic=%v) failed after %s at %s (%v) but left %s behind", c.wp.name, c.dstKind, c.atomic, in.kind, in.p.key, err, k)
+					break
+				}
+			}
+		}
 		if fired > 0 {
 			states["fault-site"] = append(states["fault-site"], site+"|"+c.dstKind)
 		}
